@@ -221,6 +221,8 @@ struct World<'a> {
     fillers: Vec<u32>,
     store: HashMap<(bool, i64, i64), Sent>, // (is_rtcp, model ssrc, model idx)
     wire_diverged: bool,
+    /// the reference sender stands at the same SRTCP index as the rustrtc sender
+    ref_rtcp_tx_on: bool,
     opendev: bool,
     /// transport mode: packets must demultiplex as RTP / parse as RTCP inside RtpTransport
     transport_safe: bool,
@@ -273,7 +275,13 @@ impl<'a> World<'a> {
         let rocmod = cfg["rocmod"].as_i64().unwrap();
         let embed = cfg["embed"].as_str().unwrap_or("low");
         let roc_base = if embed == "highroc" { u32::MAX - (rocmod - 2) as u32 } else { 0 };
-        let rtcp_base = if embed == "rtcptop" { 0x7FFF_FFFF - cfg["rtcptop"].as_i64().unwrap() as u32 } else { 0 };
+        let rtcp_base = if embed == "rtcptop" {
+            0x7FFF_FFFF - cfg["rtcptop"].as_i64().unwrap() as u32
+        } else if embed == "rtcppos" {
+            cfg["rtcpbase"].as_i64().unwrap() as u32
+        } else {
+            0
+        };
         let emb = Emb { scale, jitter, rocmod, roc_base, rtcp_base };
         let key = rng.bytes(16);
         let salt = rng.bytes(if pname == "gcm" { 12 } else { 14 });
@@ -298,6 +306,7 @@ impl<'a> World<'a> {
             fillers: Vec::new(),
             store: HashMap::new(),
             wire_diverged: false,
+            ref_rtcp_tx_on: rtcp_base == 0,
             transport_safe: false,
             opendev: cfg["opendev"].as_i64() == Some(1),
             rtcp_wire: HashMap::new(),
@@ -411,7 +420,7 @@ impl<'a> World<'a> {
             self.rtcp_wire.entry(k).or_default().push(ri);
         }
         let mut x3 = None;
-        if let Some(rtx) = self.rtx.as_mut().filter(|_| self.emb.rtcp_base == 0) {
+        if let Some(rtx) = self.rtx.as_mut().filter(|_| self.ref_rtcp_tx_on) {
             match rtx.protect_rtcp(&plain) {
                 Ok(b) => {
                     self.evals += 1;
@@ -504,7 +513,8 @@ impl<'a> World<'a> {
         // world r2ref: rustrtc -> reference
         if demand && self.rrx.is_some() && !self.wire_diverged {
             let rrx = self.rrx.as_mut().unwrap();
-            if (rtcp && self.emb.rtcp_base == 0) || (!rtcp && shape_ok && rrx.in_domain(ssrc, real_idx)) {
+            // the reference reads the SRTCP index from the packet (stateless): it is consulted at every index position
+            if rtcp || (shape_ok && rrx.in_domain(ssrc, real_idx)) {
                 self.ref_checked += 1;
                 self.evals += 1;
                 let r = if rtcp { rrx.unprotect_rtcp(&x1) } else { rrx.unprotect_rtp(&x1, ssrc, real_idx) };
@@ -967,6 +977,19 @@ fn run_edge(edge: &Value, lineno: u64, pname: &str, use_ref: bool, few: bool, sm
             let ssrc = w.ssrc(k, &mut rng);
             let (roc, last, _) = w.tx.verif_tx_state(ssrc).unwrap_or(ABSENT);
             w.tx.verif_force_tx_state(ssrc, roc, last, w.emb.rtcp_base).expect("force tx");
+            // the reference sender has no way to be placed: it really sends that many packets when this is affordable
+            // (the 2^16 boundary); beyond that only its stateless receiver is an oracle
+            if w.emb.rtcp_base <= 70_000 {
+                if let Some(rtx) = w.rtx.as_mut() {
+                    let mut dummy = vec![0x80u8, 201, 0, 1];
+                    dummy.extend_from_slice(&ssrc.to_be_bytes());
+                    let mut ok = true;
+                    for _ in 0..w.emb.rtcp_base {
+                        ok &= rtx.protect_rtcp(&dummy).is_ok();
+                    }
+                    w.ref_rtcp_tx_on = ok;
+                }
+            }
         }
     }
     let pre: Vec<Step> = edge["pre"].as_array().unwrap().iter().map(step_of).collect();
